@@ -546,6 +546,8 @@ def case_folding_by_flag(c, chk, rid='R11.16'):
             for e in p.events:
                 if e.kind != 'call' or e.name not in FOLD or any(a[0] == 'str' for a in e.args[:2]):
                     continue          # (a comparison with a literal word - the boolean words - is case-insensitive by definition)
+                if not any(sym.mentions(a, lambda v: v[0] == 'fld' and len(v) > 3 and ((v[2] == 'cfg_opt_t' and v[3] == 'name') or (v[2] == 'cfg_t' and v[3] == 'title'))) for a in e.args[:2]):
+                    continue          # the rule is about the names of options and the titles of sections
                 n += 1
                 ok = False
                 for cn, t, _ in p.assume[:e.seq] if hasattr(e, 'seq') else p.assume:
